@@ -36,3 +36,17 @@ func (m *Manager) VerifPoolKey() []byte {
 	e.Flush()
 	return buf.Bytes()
 }
+
+// VerifPoolWeight returns the pool weight the manager has on record, the weight of the transactions that are
+// actually pooled, and whether the record is meant to be current (the pool has been validated against the tip).
+func (m *Manager) VerifPoolWeight() (recorded, actual uint64, current bool) {
+	m.mu.Lock()
+	defer m.mu.Unlock()
+	for _, t := range m.txpool.txns {
+		actual += m.tipState.TransactionWeight(t)
+	}
+	for _, t := range m.txpool.v2txns {
+		actual += m.tipState.V2TransactionWeight(t)
+	}
+	return m.txpool.weight, actual, m.txpool.ms != nil
+}
